@@ -107,6 +107,9 @@ func LoadProject(dir string, procs []ProcSpec, strict bool, logLength int, top .
 }
 
 // Begin loads the project, builds a runner behind the fake commander and starts Run().
+// ErrLeftover: the case was not started because an earlier case of this process has not come to rest.
+var ErrLeftover = errors.New("an earlier case has not come to rest")
+
 func Begin(s *Scenario) (*Exec, error) {
 	dir, err := os.MkdirTemp(TmpRoot(), "case-")
 	if err != nil {
@@ -128,6 +131,13 @@ func Begin(s *Scenario) (*Exec, error) {
 	e.H.Project = project
 	w := world.New()
 	e.W = w
+	// carry-over guard: the hooks are process-wide, so a goroutine of an earlier case that is still
+	// active (it ended inconclusively, e.g. inside a back-off sleep) would launch its command into
+	// this case's world. Wait until everything left over is parked for good; otherwise do not start.
+	if ok, busy := world.Settle(8 * time.Second); !ok {
+		e.H.Busy = "a goroutine of an earlier case is still active: " + busy
+		return e, ErrLeftover
+	}
 	w.Behave = func(name string, k int) world.Behaviour {
 		sp := e.specFor(name)
 		if sp == nil || len(sp.Beh) == 0 {
